@@ -574,6 +574,11 @@ func acceptableFor(j *judged, f *refmatch.Flow, t int, a netip.Addr, dest bool) 
 	if j.out.TTL == t {
 		return true
 	}
+	for _, a := range j.out.Alt {
+		if a == t {
+			return true
+		}
+	}
 	if j.out.OrLater && t > j.out.TTL {
 		// credited to a later probe that had been sent when the frame was read
 		for _, p := range f.Probes {
